@@ -235,7 +235,7 @@ def run(ctx):
     for j in hjobs[40:42] + hjobs[-1:]:
         ctx.sample(c10.describe(j))
     done = 0
-    for job, r in pool.pmap_split(_work, len(_JOBS), 20, timeout=40, single_timeout=20):
+    for job, r in pool.pmap_split(_work, len(_JOBS), 20, timeout=40, single_timeout=20, max_failures=20000):
         if isinstance(r, pool.Crash) and r.kind == "skipped":
             ctx.exhaustive = False
             if "re-run-of-failed-chunks-capped" not in ctx.caps:
